@@ -31,6 +31,17 @@ Definition observe (ast : val) : list N :=
   let '(o, st) := eval RUN_FUEL 1 ast ROOT init_state in
   show_outcome o ++ s_ "| " ++ show_val (VList (rev (trace st)) None).
 
+(** C <ast>: the same with a context: the harness builtin (cancel!) cancels it from inside the program *)
+Definition observe_c (ast : val) : list N :=
+  let '(o, st) := eval_c RUN_FUEL 1 ast ROOT init_state in
+  show_outcome o ++ s_ "| " ++ show_val (VList (rev (trace st)) None).
+
+Definition run_program_c (ts : list tok) : list N :=
+  match parse_value ts with
+  | Some (ast, []) => observe_c ast
+  | _ => bad
+  end.
+
 Definition run_program (ts : list tok) : list N :=
   match parse_value ts with
   | Some (ast, []) => observe ast
@@ -359,6 +370,7 @@ Definition run_tokens (ts : list tok) : list N :=
       else if N.eqb c (tagc "D") then run_stepper r
       else if N.eqb c (tagc "Y") then run_read_preamble r
       else if N.eqb c (tagc "X") then run_read_print_read r
+      else if N.eqb c (tagc "C") then run_program_c r
       else if N.eqb c (tagc "N") then run_atoms_history r
       else if N.eqb c (tagc "F") then run_future_history r
       else bad
